@@ -11,7 +11,9 @@ ModelElem(t) ==
   ELSE IF t[1] = "rect" THEN [k |-> "rect", n |-> <<M(t[2]), M(t[3]), M(t[4]), M(t[5]), M(t[6])>>, role |-> <<0,1,2,2,2>>, fl |-> <<>>,
                          cls |-> IF t[7] = 1 THEN <<"broken", "nofill">> ELSE <<"solid", "nofill">>, s |-> <<>>, g |-> 0]
   ELSE IF t[1] = "path" THEN [k |-> "path", n |-> <<M(t[2]), M(t[3]), M(t[4]), M(t[4]), M(t[6]), M(t[7])>>, role |-> <<0,1,2,2,0,1>>,
-                         fl |-> <<0, 0, t[5]>>, cls |-> <<"nofill">>, s |-> <<>>, g |-> 0]
+                         fl |-> <<0, t[8], t[5]>>, cls |-> <<"nofill">>, s |-> <<>>, g |-> 0]
+  ELSE IF t[1] = "circle" THEN [k |-> "circle", n |-> <<M(t[2]), M(t[3]), M(t[4])>>, role |-> <<0,1,2>>, fl |-> <<>>,
+                         cls |-> <<"nofill">>, s |-> <<>>, g |-> 0]
   ELSE [k |-> "text", n |-> <<M(t[2]), M(t[3])>>, role |-> <<0,1>>, fl |-> <<>>, cls |-> <<>>, s |-> t[4], g |-> 0]
 ModelDoc(o) == [wf |-> 1, elems |-> [i \in 1..Len(o) |-> ModelElem(o[i])]]
 ModelEvent == [rows |-> rows, doc |-> ModelDoc(out)]
